@@ -1,25 +1,101 @@
 //! One module per property.  Each exports
-//!   gen(&mut Gen)                      -- emit case lines
+//!   gen(&mut Gen)                               -- emit case lines
 //!   exec(&[&str], &mut Obs) -> Option<String>   -- run the real code on one case line
-//!   tables() -> String                 -- (optional) measured tables as Lean text
+//!   tables() -> String                          -- measured tables as Lean text (may be empty)
 use crate::common::*;
 
+pub mod c01;
+pub mod c02;
+pub mod c03;
+pub mod c04;
+pub mod c05;
+pub mod c06;
+pub mod c07;
+pub mod c08;
+pub mod c09;
+pub mod c10;
 pub mod c11;
+pub mod c12;
+pub mod c13;
+pub mod c14;
+pub mod c15;
+pub mod c16;
+pub mod c17;
+pub mod c18;
+pub mod c19;
+pub mod c20;
 
 pub fn gen(prop: &str, g: &mut Gen) {
     match prop {
+        "C01" => c01::gen(g),
+        "C02" => c02::gen(g),
+        "C03" => c03::gen(g),
+        "C04" => c04::gen(g),
+        "C05" => c05::gen(g),
+        "C06" => c06::gen(g),
+        "C07" => c07::gen(g),
+        "C08" => c08::gen(g),
+        "C09" => c09::gen(g),
+        "C10" => c10::gen(g),
         "C11" => c11::gen(g),
+        "C12" => c12::gen(g),
+        "C13" => c13::gen(g),
+        "C14" => c14::gen(g),
+        "C15" => c15::gen(g),
+        "C16" => c16::gen(g),
+        "C17" => c17::gen(g),
+        "C18" => c18::gen(g),
+        "C19" => c19::gen(g),
+        "C20" => c20::gen(g),
         _ => panic!("unknown property {}", prop),
     }
 }
 
 pub fn exec(words: &[&str], obs: &mut Obs) -> Option<String> {
     None
+        .or_else(|| c01::exec(words, obs))
+        .or_else(|| c02::exec(words, obs))
+        .or_else(|| c03::exec(words, obs))
+        .or_else(|| c04::exec(words, obs))
+        .or_else(|| c05::exec(words, obs))
+        .or_else(|| c06::exec(words, obs))
+        .or_else(|| c07::exec(words, obs))
+        .or_else(|| c08::exec(words, obs))
+        .or_else(|| c09::exec(words, obs))
+        .or_else(|| c10::exec(words, obs))
         .or_else(|| c11::exec(words, obs))
+        .or_else(|| c12::exec(words, obs))
+        .or_else(|| c13::exec(words, obs))
+        .or_else(|| c14::exec(words, obs))
+        .or_else(|| c15::exec(words, obs))
+        .or_else(|| c16::exec(words, obs))
+        .or_else(|| c17::exec(words, obs))
+        .or_else(|| c18::exec(words, obs))
+        .or_else(|| c19::exec(words, obs))
+        .or_else(|| c20::exec(words, obs))
 }
 
 pub fn tables() -> String {
     let mut s = String::new();
+    s.push_str(&c01::tables());
+    s.push_str(&c02::tables());
+    s.push_str(&c03::tables());
+    s.push_str(&c04::tables());
+    s.push_str(&c05::tables());
+    s.push_str(&c06::tables());
+    s.push_str(&c07::tables());
+    s.push_str(&c08::tables());
+    s.push_str(&c09::tables());
+    s.push_str(&c10::tables());
     s.push_str(&c11::tables());
+    s.push_str(&c12::tables());
+    s.push_str(&c13::tables());
+    s.push_str(&c14::tables());
+    s.push_str(&c15::tables());
+    s.push_str(&c16::tables());
+    s.push_str(&c17::tables());
+    s.push_str(&c18::tables());
+    s.push_str(&c19::tables());
+    s.push_str(&c20::tables());
     s
 }
